@@ -199,6 +199,21 @@ def gen_program(g, prof):
                 ["spawn", gg, c1, "soon", [["yield", g.int(3, 7)], ["raise", 78]]],
                 ["spawn", gg, c2, "soon", [g.choice([["forever"], ["wait", "e0"]])]],
                 g.choice([["forever"], ["yield", 12], ["wait", "e1"]])]]]]] + main
+        elif which == "group_shielded_after_failure":
+            # an enclosing scope is cancelled; a child of the group fails on account of that; only then is the group's
+            # own scope shielded (F16): the group must stay cancelled because of its failed child
+            a, gg, c1 = new("s"), new("g"), new("c")
+            st["names"] += [a, gg, c1]
+            st["groups"].append(gg)
+            st["children"].append(c1)
+            ext += [[g.int(1, 3), "cancel", a]]
+            handler = [["yield", g.int(1, 3)], ["shield", gg, True], ["yield", g.int(1, 3)]]
+            main = [["scope", a, False, None, [["group", gg, [
+                ["spawn", gg, c1, "soon", [["catch", "cancel", [["forever"]], [["yield", g.int(0, 1)], ["raise", 76]],
+                                            True, "reraise"]]],
+                ["catch", "cancel", [g.choice([["forever"], ["wait", "e0"]])], handler, True,
+                 g.choice(["reraise", "swallow"])],
+                ["yield", g.int(1, 3)]]]]]] + main
         elif which == "native_in_cancelled_scope":
             # a child sits behind a shield inside a scope that gets cancelled; then it is cancelled natively:
             # the native CancelledError must travel through the cancelled scope untouched
